@@ -139,6 +139,8 @@ impl Decoder for Socks5UdpCodec {
         if src.is_empty() {
             return Ok(None);
         }
+        // a datagram is decoded or dropped as a whole: nothing of a refused one may stay in the read buffer
+        let mut src = src.split_off(0);
         if src.remaining() < 5 {
             bail!("Insufficient length of packet");
         }
@@ -146,8 +148,8 @@ impl Decoder for Socks5UdpCodec {
             bail!("Discarding fragmented payload");
         }
         src.advance(3);
-        let recipient = address::decode(src)?;
-        Ok(Some((src.split_off(0), recipient)))
+        let recipient = address::decode(&mut src)?;
+        Ok(Some((src, recipient)))
     }
 }
 
